@@ -7,6 +7,7 @@ package liquid
 
 import (
 	"bytes"
+	"strings"
 
 	nd "github.com/osteele/liquid/zz_verifnd"
 )
@@ -180,7 +181,14 @@ func VerifC02EntryPoints() {
 		src = c03Failing[i-len(corpus)]
 	}
 	b := corpusBindings()
-	e := NewEngine()
+	// the same on an engine with custom delimiters and the source respelled: every entry point honours them
+	mk := func() *Engine { return NewEngine() }
+	if i%3 == 1 && nd.Choice(2) == 1 && !strings.Contains(src, "<") && !strings.Contains(src, "[") {
+		q := [4]string{"<<", ">>", "[%", "%]"}
+		src = c19Respell(src, q)
+		mk = func() *Engine { return NewEngine().Delims(q[0], q[1], q[2], q[3]) }
+	}
+	e := mk()
 	tpl, perr := e.ParseString(src)
 	nd.Assert(perr == nil, "parses")
 	if perr != nil {
@@ -223,7 +231,7 @@ func VerifC02EntryPoints() {
 	}
 	out, err = tpl2.RenderString(b)
 	same(out, errOrNil(err), "reparse")
-	out, err = NewEngine().ParseAndRenderString(src, b)
+	out, err = mk().ParseAndRenderString(src, b)
 	same(out, errOrNil(err), "fresh-engine")
 	nd.Reach("C02.entrypoints")
 }
